@@ -35,6 +35,8 @@ struct mm_log {
 struct mm_state {
 	/// The array of pointers to the allocated buddy systems for the LP
 	dyn_array(struct buddy_state *) buddies;
+	/// The same buddy systems in the order they were created, i.e. the order in which allocations try them
+	dyn_array(struct buddy_state *) buddies_by_age;
 	/// The array of checkpoints
 	dyn_array(struct mm_log) logs;
 	/// The total count of allocated bytes
